@@ -62,8 +62,10 @@ def main():
         if ok:
             out_dir = os.path.join(VERIF, "seeded", sid)
             os.makedirs(out_dir, exist_ok=True)
-            shutil.copy(patch, os.path.join(out_dir, "patch.diff"))
-            shutil.copy(demo, os.path.join(out_dir, "demo.py"))
+            for src, name in ((patch, "patch.diff"), (demo, "demo.py")):
+                dstp = os.path.join(out_dir, name)
+                if os.path.realpath(src) != os.path.realpath(dstp):
+                    shutil.copy(src, dstp)
             old = {}
             mp = os.path.join(out_dir, "meta.json")
             if os.path.exists(mp):
